@@ -18,6 +18,8 @@ var (
 	flagVerbose   = flag.Bool("v", false, "verbose")
 	flagSplit     = flag.Bool("split", false, "diagnosis: split conjunctive goals into one obligation per conjunct")
 	flagDumpAll   = flag.String("dumpname", "", "dump queries whose name contains this string to /tmp/vcdump")
+	flagGenOnly   = flag.Bool("genonly", false, "generate obligations only")
+	flagOnly      = flag.String("only", "", "only obligations whose name contains this string")
 	flagOut       = flag.String("out", "", "directory for evidence/ and replays/ (default /verif)")
 )
 
@@ -77,6 +79,23 @@ func cmdFunc(args []string) {
 		if *flagVerbose {
 			fmt.Printf("%s: %d obligations, prelude %d lines\n", n, len(c.obls), len(c.lines))
 		}
+	}
+	if *flagOnly != "" {
+		var sel []*Obl
+		for _, o := range all {
+			if strings.Contains(o.Name, *flagOnly) {
+				sel = append(sel, o)
+			}
+		}
+		all = sel
+	}
+	if *flagGenOnly {
+		tot := 0
+		for _, o := range all {
+			tot += len(o.Goal)
+		}
+		fmt.Printf("generated %d obligations in %.1fs, goal bytes %d\n", len(all), time.Since(t0).Seconds(), tot)
+		return
 	}
 	dischargeAll(all, *flagTimeout, *flagWorkers)
 	if *flagVerbose {
